@@ -85,7 +85,11 @@ CHECKS = {
          "for_each sends exactly one Pull per greeting or datum, and from_iter at rest has served every Pull by one datum when its sink "
          "sends one Pull per message - these are the facts the composed liveness theorem (C06_pipeline_completes) is built from, where the "
          "discipline 'one Pull per message towards from_iter' is itself PROVED of every pipeline of map/filter/scan/take/skip "
-         "(Liveness.src_one_pull). Other compositions ('programs' in the quantifier) are validated on the crate (closed operator trees "
+         "(LivenessG.all_one_pull). PROGRAMS (PullPrograms.v, C14_program_*): for every linear pipeline from_iter -> map/filter/scan/take/skip "
+         "(any length, ANY iterator) under an external sink that sends at most one Pull per message it received, with every pull schedule "
+         "(top-level or from inside its handlers): the sink never receives more Data than it sent Pulls, and at rest, towards a live sink, "
+         "every Pull has been answered by a datum - also in the monitor's own counters (npull/ndata); inside pipelines under for_each the "
+         "same holds at every link (ClosedDemand.v). Other compositions (concat!/flatten inside programs) are validated on the crate (closed operator trees "
          "under the sink-side monitor), not proved; take under concat!/flatten is outside the premise (its output gives Data AND the end for "
          "one Pull) and is not generated.", PROOF_TECH),
  "C15": ("proof", "Theorems for every iterator (not assumed fused): no violation incl. no nested delivery, the loop-frame shape (at most one "
